@@ -1024,6 +1024,12 @@ impl Check for C16 {
         let mut lim = Limits::small();
         lim.big_aggs = false;
         let small_cfg = move || cfg_strategy(lim);
+        // measurements: room for several full-width entries (an L1BoundSum entry of a bound above
+        // 2^127 takes 128 elements)
+        let mut mlim = lim;
+        mlim.max_input_len = 700;
+        mlim.max_work = 8_000;
+        let meas_cfg = move || cfg_strategy(mlim);
         let misuse = prop_oneof![
             2 => (-3i8..=3).prop_map(P3Misuse::RandLen),
             3 => (any::<u8>(), any::<u8>(), any::<u64>()).prop_map(|(share, id_sel, id_rnd)| P3Misuse::AggId { share, id_sel, id_rnd }),
@@ -1046,7 +1052,7 @@ impl Check for C16 {
         ];
         prop_oneof![
             6 => cfg_extreme().prop_map(|cfg| Case::P3Ctor { cfg }),
-            5 => (small_cfg(), any::<u8>(), any::<u64>()).prop_map(|(cfg, sel, seed)| {
+            5 => (meas_cfg(), any::<u8>(), any::<u64>()).prop_map(|(cfg, sel, seed)| {
                 let meas = arb_meas(&cfg.inst, sel, seed);
                 Case::P3Measurement { cfg, meas }
             }),
